@@ -205,4 +205,27 @@ def progReadBasicType (w : Nat) : Prog :=
 def progViewString (n : Nat) : Prog :=
   [.view 0 n, .ret 0]
 
+/-! ### static taint analysis: which locals may point into the buffer's backing array -/
+
+/-- the effect of one instruction on the set of possibly-aliasing locals (`true` = may point into the buffer) -/
+def taintStep : Instr → (Nat → Bool) → (Nat → Bool)
+  | .make d _, t => fun k => if k = d then false else t k
+  | .readFull _, t => t
+  | .toString d _, t => fun k => if k = d then false else t k
+  | .sub d s _ _, t => fun k => if k = d then t s else t k
+  | .view d _, t => fun k => if k = d then true else t k
+  | .unsafeString d s, t => fun k => if k = d then t s else t k
+  | .write _, t => t
+  | .ret _, t => t
+
+/-- the local returned by the first `ret` is statically clean -/
+def retCleanFrom : Prog → (Nat → Bool) → Bool
+  | [], _ => false
+  | .ret r :: _, t => !t r
+  | i :: rest, t => retCleanFrom rest (taintStep i t)
+
+/-- a reader body whose result cannot point into the buffer: copies of views (`string(buf.Next(n))`) are fine,
+    returning a view, a sub-slice of a view or an `unsafe.String` of a view is not -/
+def Prog.retClean (p : Prog) : Bool := retCleanFrom p (fun _ => true)
+
 end FinProto.Alias
